@@ -839,6 +839,32 @@ func TestVerifC04(t *testing.T) {
 		}
 	}
 	res.Bounds["B6.preset_response"] = fmt.Sprintf("preset(A) -> rename(A to B's name) -> cache -> {nothing, context swapped for its copy} -> upstream if no response; ordered pairs of %d names x types {1,28,255} x 8 flags; queries A, B, B", len(b5names))
+	// B7 (cheap, before the key product): the complete type sweep with an upstream that gives
+	// negative answers (what is stored then has no answer record of the question's type: nothing
+	// but the key ties it to its question)
+	for _, kind := range []string{"nxdomain", "nodata"} {
+		for _, desc := range []bool{false, true} {
+			if !mine() || expired("all negative-answer type sweeps were done") {
+				continue
+			}
+			r := c04newRig(4 * 65536)
+			r.answer = kind
+			for pass := 0; pass < 2; pass++ {
+				for i := 0; i < 65536; i++ {
+					j := i
+					if desc {
+						j = 65535 - i
+					}
+					q := c04q{N: 0, T: uint16(j + 1), C: 1, F: 0}
+					bOut("type-sweep-"+kind, fmt.Sprintf("pass%d/%s", pass+1, s.check("type-sweep-"+kind, q, r.exec(q))))
+				}
+			}
+			execs += r.execs
+			res.States += 65536
+			r.close()
+		}
+	}
+	res.Bounds["B7.negative_answers"] = "all 65536 types x {ascending, descending} x 2 passes for one base question with an upstream answering NXDOMAIN / NODATA (marker in the authority section)"
 	// ------------------------------------------------------------ K: key injectivity
 	keyer := c04newKeyer()
 	seed := maphash.MakeSeed() // process-local table hash; the shard function below is deterministic
@@ -1010,10 +1036,8 @@ func TestVerifC04(t *testing.T) {
 		}
 	}
 	res.Bounds["B1.type_sweeps"] = fmt.Sprintf("%d bases (name,class,flags) x {ascending,descending} x all 65536 types x 2 passes on one cache", len(b1))
-	answerKind := ""
 	sweep := func(scn string, n int, gen func(i int) c04q, desc bool) {
 		r := c04newRig(4 * 65536)
-		r.answer = answerKind
 		defer r.close()
 		for pass := 0; pass < 2; pass++ {
 			for i := 0; i < n; i++ {
@@ -1037,20 +1061,6 @@ func TestVerifC04(t *testing.T) {
 			sweep("type-sweep", 65536, func(i int) c04q { return c04q{N: b.n, T: uint16(i + 1), C: b.c, F: b.f} }, desc)
 		}
 	}
-	// the same sweep with an upstream that gives negative answers (what is stored then has
-	// no answer record of the question's type: nothing but the key ties it to its question)
-	for _, kind := range []string{"nxdomain", "nodata"} {
-		for _, desc := range []bool{false, true} {
-			if !mine() || expired("all negative-answer type sweeps were done") {
-				continue
-			}
-			answerKind = kind
-			b := b1[0]
-			sweep("type-sweep-"+kind, 65536, func(i int) c04q { return c04q{N: b.n, T: uint16(i + 1), C: b.c, F: b.f} }, desc)
-			answerKind = ""
-		}
-	}
-	res.Bounds["B1.negative_answers"] = "the first base again with an upstream answering NXDOMAIN / NODATA (marker in the authority section)"
 	// B2: all 65536 classes
 	type base2 struct {
 		n int
